@@ -49,10 +49,10 @@ def main():
         result["demo_with_change"] = "fails (as required)" if rc != 0 else "PASSES (change not demonstrated)"
         result["demo_fail_tail"] = out.strip()[-400:] if rc != 0 else ""
         fired = {}
-        for rule in sorted(glob.glob(os.path.join(VERIF, "sa", "rules", "c[0-9][0-9].py"))):
-            pid = os.path.basename(rule)[:-3].upper()
-            cenv = dict(os.environ, VERIF_EVIDENCE_DIR=os.path.join(tmp, "evidence"))
-            rc, out = sh(["/venv/bin/python", os.path.join(VERIF, "sa", "check.py"), pid, "--repo", wt], env=cenv, timeout=300)
+        sys.path.insert(0, VERIF)
+        from tools_common import run_all
+
+        for pid, (rc, out) in sorted(run_all(wt, os.path.join(tmp, "evidence")).items()):
             if rc != 0:
                 lines = [l.strip() for l in out.splitlines() if (" at " in l and l.startswith("  C")) or l.startswith("ANALYSIS-ERROR")]
                 fired[pid] = {"exit": rc, "reports": lines[:4]}
